@@ -121,10 +121,16 @@ def configs(thorough):
                    dict(name='nothing changed', expect=[])], **I),
         C('history: ifchange a built by a.do; a.do removed (default.do remains)', 'C02 C13', targets=[b'a'], default_do=True,
           history=[dict(name='chosen .do removed', mutate='remove:a.do', expect=['a'], chosen='default.do')], **I),
-        C('history: ifchange a (declares redo-ifcreate f); again; f created', 'C14', targets=[b'a'], declares={(97,): ('ifcreate', b'f')},
+        C('history: ifchange a (a.do runs the real redo-ifcreate f); again; f created', 'C14', targets=[b'a'],
+          scripts={b'a': [('ifcreate', [b'f'])]},
           history=[dict(name='nothing changed (f still absent)', expect=[]),
                    dict(name='f created', mutate='create:f', expect=['a'], result=None)], **I),
-        C('history: ifchange a (declares redo-always); two more runs', 'C14', targets=[b'a'], declares={(97,): ('always',)},
+        C('history: ifchange a (a.do runs the real redo-always); two more runs', 'C14', targets=[b'a'], scripts={b'a': [('always',)]},
+          history=[dict(name='a new run, nothing changed', expect=['a']), dict(name='another run', expect=['a'])], succeed=True, **I),
+        C('history: ifchange a (declares redo-ifcreate f); again; f created', 'C14x', targets=[b'a'], declares={(97,): ('ifcreate', b'f')},
+          history=[dict(name='nothing changed (f still absent)', expect=[]),
+                   dict(name='f created', mutate='create:f', expect=['a'], result=None)], **I),
+        C('history: ifchange a (declares redo-always); two more runs', 'C14x', targets=[b'a'], declares={(97,): ('always',)},
           history=[dict(name='a new run, nothing changed', expect=['a']), dict(name='another run', expect=['a'])], **I),
         # nested: a.do runs `redo-ifchange b`, executed with the real code as a sub-redo when a's script is seen to exit
         C('history: ifchange a (a.do: redo-ifchange b; b.do: redo-ifchange src); again; src edited; again', 'C01 C02', targets=[b'a'],
@@ -926,10 +932,16 @@ def history_replay(scn, c):
                     if n.decode() not in targets:
                         targets.append(n.decode())
     stamps = {}
+    native_always = set()
+    native_ifcreate = {}
     for tn, ops in (cfg['scripts'] or {}).items():
         for op in ops:
             if op[0] == 'stamp':
                 stamps[tn.decode()] = op[1]
+            if op[0] == 'always':
+                native_always.add(tn.decode())
+            if op[0] == 'ifcreate':
+                native_ifcreate[tn.decode()] = [n.decode() for n in op[1]]
     body = ('echo @T@ >> trace\nif [ -s decl-@T@ ]; then redo-ifchange $(cat decl-@T@); fi\nif [ -e stamp-@T@ ]; then redo-stamp < stamp-@T@; fi\n'
             'if [ -s declc-@T@ ]; then redo-ifcreate $(cat declc-@T@) || exit 0; fi\nif [ -e always-@T@ ]; then redo-always; fi\necho out-of-@T@\n')
     files = {}
@@ -946,6 +958,12 @@ def history_replay(scn, c):
         out = []
         for t in targets:
             srcname = (d or {}).get(tuple(t.encode()))
+            if t in native_always:
+                out.append('printf %%s "" > decl-%s; : > always-%s' % (t, t))
+                continue
+            if t in native_ifcreate:
+                out.append('printf %%s "" > decl-%s; printf %%s "%s" > declc-%s' % (t, ' '.join(native_ifcreate[t]), t))
+                continue
             if t in nested:
                 out.append('printf %%s "%s" > decl-%s' % (' '.join(nested[t]), t))
                 continue
